@@ -12,8 +12,9 @@ MANIFEST = dict(
     technique="Coq theorems on the parse-loop / transformer model (error classes by construction and by induction) + reflection on the generated grammar + extracted-model correspondence on a malformed-input stream",
     text=("Coq (Props/C11.v): on the model, for EVERY text the retyping hook can no longer fail (its only partial operation, value_stack[-1], is guarded - the former IndexError is listed as fixed), "
           "every failure of the transformer stage is a lark VisitError (induction over the tree, all callbacks), every failure of the lexer is UnexpectedCharacters/UnexpectedToken with the position of the offending token, "
-          "and - by vm_compute on the generated grammar - each of the block types the grammar can open is accepted at the root. PARTIAL: absence of LR-driver internal errors (missing goto, stack underflow) and of fuel exhaustion is "
-          "not proved universally (would need an LR table validator); it is established for every explored input by the correspondence runs, which compare the extracted model with the real loads on token-level mutations of corpus and "
+          "and - by vm_compute on the generated grammar - each of the block types the grammar can open is accepted at the root. An LR table validator (Proofs/LRFacts.v) is proved sound and discharged by vm_compute on the LALR table "
+          "Lark built for the current grammar, so the driver's internal failure modes (missing rule/goto, stack underflow, assertion, inlining a token) are excluded for every text; PARTIAL only on exhaustion of the model's reduce fuel. "
+          "The correspondence runs compare the extracted model with the real loads on token-level mutations of corpus and "
           "generated documents, token soups, unterminated constructs, nested expressions up to depth 100 and long repetitive inputs. Wall-clock time and the interpreter recursion limit are outside the model: the hunter measures time against length."),
     design_ref="DESIGN.md 7/C11",
     note="C11: lines starting with INCLUDE are neutralised in generated inputs (INCLUDE expansion and its I/O errors belong to C15). Lark run-time, CPython re modelled.")
